@@ -164,6 +164,31 @@ func runC15(ctx *runCtx) {
 			return
 		}
 	}
+	// started now, collected at the end: two connections that stay silent for 5.3 s before a Ping arrives
+	type idleRes struct {
+		client, inside bool
+		sh, w          string
+	}
+	idle := make(chan idleRes, 4)
+	idleN := 0
+	for _, client := range []bool{true, false} {
+		inside := client // one role with the CloseRead reader, the other with an explicit reader inside a message
+		idleN++
+		go func(client, inside bool) {
+			sh, w := guarded(30*time.Second, func() (string, string) { return pingAfterIdle(client, inside) })
+			idle <- idleRes{client, inside, sh, w}
+		}(client, inside)
+	}
+	defer func() {
+		for i := 0; i < idleN; i++ {
+			r := <-idle
+			rep.eval(fmt.Sprintf("ping-after-idle/%v/%v", r.client, r.inside))
+			rep.count("ping-after-idle")
+			if r.sh != "" {
+				rep.violate(Violation{Kind: "property", Shape: r.sh, What: r.w, Replay: map[string]interface{}{"scenario": "ping-after-idle", "client": r.client, "inside_message": r.inside}})
+			}
+		}
+	}()
 	rng := newRng(ctx.seed, "c15")
 	// receive side
 	var cases []*ReadCase
@@ -389,6 +414,48 @@ func pingDuringCloseWait(client bool, reader string, lens []int) (string, string
 		}
 	case <-time.After(8 * time.Second):
 		return "close-hangs-after-pings", desc + ": Close did not return after the peer's Close frame"
+	}
+	return "", ""
+}
+
+// pingAfterIdle: a connection whose reader (the CloseRead goroutine, or an explicit Reader inside a fragmented message) has
+// been waiting for more than five seconds — longer than the time the library allows itself for handling one control
+// frame — receives a Ping: the Pong comes back and the connection stays usable. (The allowance is per control frame,
+// counted from its arrival, not from the moment the reader started to wait.)
+func pingAfterIdle(client bool, insideMessage bool) (string, string) {
+	a, b := newPipe()
+	c := websocket.VerifNewConn(a, client, websocket.VerifCopts{}, 0)
+	peer := newRawPeer(b, !client)
+	defer b.Close()
+	defer c.CloseNow()
+	desc := fmt.Sprintf("ping-after-idle client=%v inside-message=%v", client, insideMessage)
+	bg, cancel := context.WithTimeout(context.Background(), 20*time.Second)
+	defer cancel()
+	if insideMessage {
+		peer.writeFrame(RawFrame{Fin: false, Op: 1, Payload: []byte("first fragment")})
+		go func() {
+			if _, r, err := c.Reader(bg); err == nil {
+				buf := make([]byte, 64)
+				for {
+					if _, err := r.Read(buf); err != nil {
+						return
+					}
+				}
+			}
+		}()
+	} else {
+		c.CloseRead(bg)
+	}
+	time.Sleep(5300 * time.Millisecond)
+	peer.writeFrame(RawFrame{Fin: true, Op: 9, Payload: []byte("after the pause")})
+	f, err := peer.readFrame(3 * time.Second)
+	if err != nil || f.Op != 10 || string(f.Payload) != "after the pause" {
+		return "ping-not-answered", fmt.Sprintf("%s: a Ping received after 5.3 s of silence got %+v, %v instead of its Pong", desc, f, err)
+	}
+	wctx, wcancel := context.WithTimeout(context.Background(), 2*time.Second)
+	defer wcancel()
+	if err := c.Write(wctx, websocket.MessageText, []byte("still here")); err != nil {
+		return "ping-not-answered", fmt.Sprintf("%s: the connection is unusable after a Ping that followed 5.3 s of silence: %v", desc, err)
 	}
 	return "", ""
 }
